@@ -93,6 +93,7 @@ class ExprMixin:
             return
         if name in fx.func.locals:
             # local, no binding on this path
+            self.emit(st, fx, "UNDEFINED", n, name=name, local=True)
             yield "raise", self.exc(st, "UnboundLocalError", name), st
             return
         # closure variables of the enclosing frame
